@@ -805,6 +805,29 @@ theorem multi_independence (ds : List Doc) (out : List Comp) (hOut : OutsideUnlo
     | none => exact ⟨[], by simp⟩
     | some db => exact ⟨_, rfl⟩
 
+/-- **multi_entry_frozen (finished placeholders keep their instances).**  While document `a` instantiates nothing (it
+lies in a stage that is over: the Controller marked its placeholders FINISHED and `_discover_dowhile_placeholders` no
+longer updates their entries), recomputing the entry of each of its placeholders from ALL looped ids of the workflow —
+what the model does, and what the ids taken out of `remaining_looped_ids` amount to — gives the entry it had: the same
+instances `0 … kOf h a`, the same `latest`, for the same document, whatever the other documents instantiate. -/
+theorem multi_entry_frozen (ds : List Doc) (out : List Comp) (hOut : OutsideUnlooped out) (hConds : ∀ d ∈ ds, CondInLoop d)
+    (hNodups : ∀ d ∈ ds, (loopIds d).Nodup) (hDisj : LoopsDisjoint ds) (h h' : List Nat)
+    (a : Nat) (hfrozen : a ∉ h') (d : Doc) (ha : ds[a]? = some d) (c : Comp) (hc : c ∈ d.comps) :
+    findPlaceholderM true ds (runM ds out (h ++ h')).comps (pid d c) =
+      findPlaceholderM true ds (runM ds out h).comps (pid d c) ∧
+    curIter d (runM ds out (h ++ h')).comps = curIter d (runM ds out h).comps ∧
+    matched (runM ds out (h ++ h')).comps (pid d c) =
+      (List.range (kOf h a + 1)).map fun j => (c.stage + d.importStage, instName j c.name) := by
+  have hk : kOf (h ++ h') a = kOf h a := by
+    simp [kOf, List.count_append, List.count_eq_zero.mpr hfrozen]
+  refine ⟨?_, ?_, ?_⟩
+  · rw [multi_placeholder_entry true ds hDisj _ a d ha c hc, multi_placeholder_entry true ds hDisj _ a d ha c hc,
+      multi_represents_eq ds out hOut hConds hNodups hDisj _ a d ha c hc,
+      multi_represents_eq ds out hOut hConds hNodups hDisj _ a d ha c hc, hk]
+  · rw [(multi_condition_is_k ds out hOut hConds hNodups hDisj _ a d ha).1,
+      (multi_condition_is_k ds out hOut hConds hNodups hDisj _ a d ha).1, hk]
+  · rw [multi_represents_eq ds out hOut hConds hNodups hDisj _ a d ha c hc, hk]
+
 /-- loop-carried wiring against any set of known ids that contains instance `j` of the producer -/
 theorem wiring_loop_carried_of_known (d : Doc) (known : List CId)
     (hNames : ∀ c ∈ d.comps, isLooped c.name = false)
